@@ -29,7 +29,7 @@ func init() {
 		Level:     "exploration",
 		Technique: "Go race detector (-race build of the harness + shovel) over free-running production-wired tasks with real goroutine concurrency, head poller at 2 ms, wire delays, head growth and reorgs in flight; reports de-duplicated by innermost shovel frame pair; plus a crash monitor over fresh child processes (plain build, the JSON dependency's racy decoder publication stretched by a build overlay) for first-use initialisation the race detector is blinded to",
 		Rule: "first use: fresh child processes (plain build; the JSON library's unsynchronised publication of a compiled decoder stretched by a build overlay, because that library hides the access from the race detector by switching to a mutex under -race) whose 2–16 goroutines perform the process's first block/head/hash requests at the same moment: the child must not crash; family A: one task with concurrency 2..8 and batch >= concurrency; family C: 2–4 event integrations each attached to two sources (own client each), so two tasks built from one integration configuration decode and insert at the same time; family B: 2–5 tasks on one source client with overlapping ranges and different data plans (b+l, h+l, r, b+t, l, b+r) so cached block segments are shared while logs/receipts/traces are attached; " +
-			"each case runs real runner goroutines until every task has reached a head that grows and reorganises meanwhile; random 0–3 ms delays at both wire boundaries, head poller at 2 ms with injected poller failures. signature = (family, concurrency class, plans, reorgs seen, poller resets); trivial = fewer than 20 Converge executions.",
+			"each case runs real runner goroutines until every task has reached a head that grows and reorganises meanwhile; random 0–3 ms delays at both wire boundaries, head poller at 2 ms with injected poller failures. signature = (family, concurrency class, plans, reorgs seen, poller resets); trivial = fewer than 20 Converge executions. Plans r,t and h,r,t joined the shared-client family; the integrations of the two-source family carry filter arguments.",
 		Assumptions: []string{
 			"the race detector only sees interleavings that occurred: a clean run is not race freedom",
 			"only well-formed chain data is served (so checkptr inside the JSON decoder is not provoked)",
